@@ -8,6 +8,7 @@ package main
 import (
 	"fmt"
 	"go/constant"
+	"go/types"
 	"sort"
 	"strings"
 
@@ -67,18 +68,24 @@ func corrIdx(fn *ssa.Function) int {
 			return i
 		}
 	}
+	if res.Len() > 0 {
+		switch res.At(0).Type().Underlying().(type) {
+		case *types.Pointer, *types.Interface, *types.Slice, *types.Map, *types.Chan:
+			return 0 // nil / non-nil
+		}
+	}
 	return -1
 }
 
 type pathState struct {
 	counts  []int
 	known   map[ssa.Value]string // value -> "true"/"false"/"nil"/"nonnil"
-	visited map[*ssa.BasicBlock]bool
+	visited map[*ssa.BasicBlock]int
 	trail   []*ssa.BasicBlock
 }
 
 func (s *pathState) clone() *pathState {
-	n := &pathState{counts: append([]int{}, s.counts...), known: map[ssa.Value]string{}, visited: map[*ssa.BasicBlock]bool{}}
+	n := &pathState{counts: append([]int{}, s.counts...), known: map[ssa.Value]string{}, visited: map[*ssa.BasicBlock]int{}}
 	for k, v := range s.known {
 		n.known[k] = v
 	}
@@ -155,6 +162,10 @@ func (cs *CountSpec) Enum(fn *ssa.Function, start Point, stop func(ssa.Instructi
 	cs.Funcs[fn] = true
 	outs := map[string]Outcome{}
 	ci := corrIdx(fn)
+	headers := map[*ssa.BasicBlock]*loop{}
+	for _, lp := range naturalLoops(fn) {
+		headers[lp.header] = lp
+	}
 	var walk func(p Point, st *pathState)
 	finish := func(st *pathState, end ssa.Instruction, ret string) {
 		cs.Paths++
@@ -168,11 +179,17 @@ func (cs *CountSpec) Enum(fn *ssa.Function, start Point, stop func(ssa.Instructi
 	}
 	walk = func(p Point, st *pathState) {
 		b := p.B
+		exitOnly := false
 		if p.I == 0 {
-			if st.visited[b] {
-				return // back edge: path abandoned (loop bodies are analysed as regions)
+			if st.visited[b] >= 1 {
+				// back edge: a loop header may be re-entered once, only to leave the loop
+				lp := headers[b]
+				if lp == nil || lp.exitIf == nil || st.visited[b] >= 2 {
+					return
+				}
+				exitOnly = true
 			}
-			st.visited[b] = true
+			st.visited[b]++
 			st.trail = append(st.trail, b)
 			if cs.Block != nil {
 				cs.bump(st, cs.Block(b), 1)
@@ -249,6 +266,15 @@ func (cs *CountSpec) Enum(fn *ssa.Function, start Point, stop func(ssa.Instructi
 			}
 		}
 		// successors
+		if exitOnly {
+			lp := headers[b]
+			for _, sc := range b.Succs {
+				if !lp.blocks[sc] {
+					walk(Point{sc, 0}, st)
+				}
+			}
+			return
+		}
 		if len(b.Succs) == 2 {
 			if iff, ok := b.Instrs[len(b.Instrs)-1].(*ssa.If); ok {
 				switch evalCond(iff.Cond, st.known) {
@@ -269,7 +295,7 @@ func (cs *CountSpec) Enum(fn *ssa.Function, start Point, stop func(ssa.Instructi
 			}
 		}
 	}
-	st := &pathState{counts: make([]int, len(cs.Classes)), known: map[ssa.Value]string{}, visited: map[*ssa.BasicBlock]bool{}}
+	st := &pathState{counts: make([]int, len(cs.Classes)), known: map[ssa.Value]string{}, visited: map[*ssa.BasicBlock]int{}}
 	walk(start, st)
 	var l []Outcome
 	for _, o := range outs {
